@@ -895,6 +895,46 @@ func (in *Interp) doCall(fr *frame, x *ssa.Call, depth int) (res aval, panicked,
 				}
 			}
 			return aUnknown, false, true
+		case "append":
+			if len(cc.Args) != 2 {
+				return aUnknown, false, true
+			}
+			base, add := in.get(fr, cc.Args[0]), in.get(fr, cc.Args[1])
+			if (base.k != kSlice && base.k != kNil) || (add.k != kSlice && add.k != kNil) {
+				return aUnknown, false, true
+			}
+			st, isSl := x.Type().Underlying().(*types.Slice)
+			if !isSl {
+				return aUnknown, false, true
+			}
+			m := 0
+			if add.k == kSlice {
+				m = add.hi - add.lo
+			}
+			if base.k == kSlice && base.hi+m <= len(base.arr) {
+				// capacity suffices: the elements are written behind the slice, in place
+				for i := 0; i < m; i++ {
+					in.storeCell(base.arr[base.hi+i], in.loadCell(add.arr[add.lo+i], st.Elem()), st.Elem())
+				}
+				return aval{k: kSlice, arr: base.arr, lo: base.lo, hi: base.hi + m, typ: x.Type()}, false, true
+			}
+			n := 0
+			if base.k == kSlice {
+				n = base.hi - base.lo
+			}
+			if n+m > 1<<16 {
+				return aUnknown, false, true
+			}
+			arr := make([]*cell, n+m)
+			for i := range arr {
+				arr[i] = in.newCellOf(st.Elem())
+				if i < n {
+					in.storeCell(arr[i], in.loadCell(base.arr[base.lo+i], st.Elem()), st.Elem())
+				} else {
+					in.storeCell(arr[i], in.loadCell(add.arr[add.lo+i-n], st.Elem()), st.Elem())
+				}
+			}
+			return aval{k: kSlice, arr: arr, lo: 0, hi: n + m, typ: x.Type()}, false, true
 		case "copy":
 			dst, src := in.get(fr, cc.Args[0]), in.get(fr, cc.Args[1])
 			if dst.k == kSlice && src.k == kSlice {
